@@ -244,6 +244,7 @@ func (x *c07X) guarded(op string, c *c07Case, f func()) *fw.PanicInfo {
 	x.calls++
 	x.wallByOp[op] += time.Since(wall0)
 	x.w.Max("cpu_max_us", dt.Microseconds())
+	x.w.Max("cpu_max_ms", dt.Milliseconds())
 	x.w.Max("cpu_max_us/"+op, dt.Microseconds())
 	if dt > c07CPUBound {
 		x.w.Count("cpu_bound_exceeded", 1)
